@@ -38,7 +38,18 @@ pub struct RunOut {
 
 pub fn run_case_with(seed: u64, program: &Program, mode: &mut Mode) -> Result<RunOut, SchedError> {
     entropy::set(rng::mix2(seed, rng::fnv("entropy")));
-    let trace = world_a::execute(program, mode, 40)?;
+    let trace = match world_a::execute(program, mode, 40) {
+        Ok(t) => t,
+        Err(SchedError::Budget(choices)) => {
+            let mut t = Trace::default();
+            t.choices = choices;
+            return Ok(RunOut {
+                trace: t,
+                violations: vec![Violation { property: "C12".into(), kind: "no_quiescence".into(), signature: "no_quiescence".into(), detail: "the server did not become quiescent within the step budget".into() }],
+            });
+        }
+        Err(e) => return Err(e),
+    };
     let reference = world_a::reference_answers(program, &trace)?;
     let violations = world_a::check_oracles(program, &trace, &reference);
     Ok(RunOut { trace, violations })
@@ -65,6 +76,18 @@ pub fn worker(tier: &str, seed: u64, from: u64, to: u64, extra: &[String]) -> Ag
         let r = if sequential { run_case_with(s, &g.program, &mut Mode::Sequential) } else { run_case_with(s, &g.program, &mut Mode::Random { rng: &mut sched, policy: g.policy }) };
         agg.runs += 1;
         match r {
+            Err(SchedError::Budget(choices)) => {
+                // bounded liveness: the system did not become quiescent within 40 steps per message
+                let case = Case { program: g.program.clone(), choices, policy: g.policy_name.to_string(), mode: if sequential { "sequential".into() } else { "random".into() } };
+                agg.fail(Failure {
+                    property: "C12".into(),
+                    signature: "no_quiescence".into(),
+                    run: i,
+                    seed: s,
+                    violation: json!({"property": "C12", "kind": "no_quiescence", "signature": "no_quiescence", "detail": "the server did not become quiescent within the step budget (40 scheduler steps per message): messages keep flowing or a thread never finishes"}),
+                    case: serde_json::to_value(&case).unwrap(),
+                });
+            }
             Err(e) => {
                 agg.errors.push(format!("run {} seed {}: {:?}", i, s, e));
             }
